@@ -32,13 +32,23 @@ class First:
             aoenv.install()
             codes = sched.code_objects_of(singleton)
             codes += sched.code_objects_of(ao.ActiveFabricSource.__init__, ao.InstrumenationWriterClass.__init__)
+            # the module-level callables themselves (a SingletonDecorator instance, or whatever they were turned into:
+            # a cached factory function has code of its own)
+            for name in ("ActiveFabric", "FiberThreadEvent", "InstrumentionWriter"):
+                obj = getattr(ao, name, None)
+                if obj is not None:
+                    codes += sched.code_objects_of(obj)
+            codes = list(dict.fromkeys(codes))
             sched.monitor(codes, self.mode)
             self._ready = True
 
     def body(self, s, p):
         aoenv.reset()
         dec = TARGETS[p["target"]]()
-        dec.instance = None
+        if hasattr(dec, "cache_clear"):
+            dec.cache_clear()       # a memoising factory instead of a decorator object: forget what earlier executions built
+        else:
+            dec.instance = None
         aoenv.fix_singleton_locks()
         aoenv.fresh_locks(dec)      # a fresh decorator may have made itself a real lock
         got = {}
